@@ -175,6 +175,80 @@ class Copy(Harness):
         return Outcome("copied", zand(conds), {"copy": snapshot(d), "original": snapshot(c)})
 
 
+# --------------------------------------------------------------------------- mutable values below the containers
+def deep_module(L, cls):
+    col = L.collections
+    Q = col.Quantity
+    return getattr(col, cls)([
+        ("s", [1, 2]), ("q", Q([0.0, 1.0], "mm")), ("t", (1, [2, 3])), ("s", [[9], [10]]),
+        ("g", col.PVLGroup([("l", [4]), ("q2", Q([5], "m")), ("l", [6])])), ("e", {7}),
+        ("o", col.PVLObject([("h", col.PVLGroup([("d", [8])])), ("u", (Q([11], "s"),))])),
+    ])
+
+
+# every mutable object reachable from the module: (description, accessor)
+LEAVES = [
+    ("list value", lambda m: m.getall("s")[0]), ("list inside a Quantity", lambda m: m["q"].value),
+    ("list inside a tuple", lambda m: m["t"][1]), ("inner list of a nested list", lambda m: m.getall("s")[1][0]),
+    ("list in a group", lambda m: m["g"].getall("l")[1]), ("list inside a Quantity in a group", lambda m: m["g"]["q2"].value),
+    ("set value", lambda m: m["e"]), ("list in a group in an object", lambda m: m["o"]["h"]["d"]),
+    ("list inside a Quantity inside a tuple in an object", lambda m: m["o"]["u"][0].value),
+    ("nested group", lambda m: m["g"]), ("group in an object", lambda m: m["o"]["h"]),
+]
+
+
+def freeze(v):
+    """structural snapshot incl. classes"""
+    if hasattr(v, "getall"):
+        return (type(v).__name__, tuple((k, freeze(x)) for k, x in v.items()))
+    if isinstance(v, tuple) and hasattr(v, "_fields"):
+        return (type(v).__name__, tuple(freeze(x) for x in v))
+    if isinstance(v, (list, tuple)):
+        return (type(v).__name__, tuple(freeze(x) for x in v))
+    if isinstance(v, (set, frozenset)):
+        return (type(v).__name__, tuple(sorted(repr(x) for x in v)))
+    return v
+
+
+class DeepValues(Harness):
+    """copy.deepcopy / pickle: nothing mutable is shared at any depth - lists inside Quantities and tuples, sets,
+    nested lists, containers inside containers; the solver chooses which object is changed in place and on
+    which side, the other side must be unchanged"""
+    prop = "C11"
+    alphabet = "ascii"
+    must_reach = ("deep",)
+    functions = ("copy.deepcopy / pickle on pvl.collections.*", "OrderedMultiDict.__reduce__/__deepcopy__ (if any)")
+
+    @property
+    def bounds(self):
+        return ("class %s, mechanism %s, a fixed module with %d mutable objects at depths 1-4 (%s); the object "
+                "changed in place and the side are solver-chosen" % (self.cls, self.mech, len(LEAVES),
+                                                                    ", ".join(d for d, _ in LEAVES)))
+
+    def inputs(self, ctx):
+        return {"leaf": pick(ctx, "leaf", 0, len(LEAVES) - 1), "side": pick(ctx, "side", 0, 1)}
+
+    def prop_fn(self, L, inp):
+        m = deep_module(L, self.cls)
+        before = freeze(m)
+        d = copy.deepcopy(m) if self.mech == "copy.deepcopy" else pickle.loads(pickle.dumps(m))
+        ok = freeze(d) == before and freeze(m) == before and d == m and type(d) is type(m)
+        acc = LEAVES[inp["leaf"]][1]
+        for i, (_, f) in enumerate(LEAVES):
+            ok = ok and f(d) is not f(m)
+        target, other = (d, m) if inp["side"] == 0 else (m, d)
+        x = acc(target)
+        if isinstance(x, list):
+            x.append(99)
+        elif isinstance(x, set):
+            x.add(99)
+        else:
+            x.append("zz", 99)
+        ok = ok and freeze(other) == before and freeze(target) != before
+        return Outcome("deep", ok, {"changed": LEAVES[inp["leaf"]][0], "side": "copy" if inp["side"] == 0 else "original",
+                                    "other_side_after": repr(freeze(other))[:300]})
+
+
 def snapshot(c):
     if hasattr(c, "getall"):
         return [type(c).__name__] + [(k, snapshot(v)) for k, v in c.items()]
@@ -202,6 +276,9 @@ def obligations(tier):
                             if quick and side == "original" and mut not in ("append", "setitem", "pop", "nested_append"):
                                 continue
                             obs.append(Copy(cls=cls, mech=mech, n=n, nested=nested, mut=mut, side=side))
+    for cls in CLASSES:
+        for mech in ("copy.deepcopy", "pickle"):
+            obs.append(DeepValues(cls=cls, mech=mech))
     return obs
 
 
